@@ -1,7 +1,7 @@
 import os
 import vlib
 
-THEOREMS = []
+THEOREMS = ["Dispenso.CpuSet." + t for t in ['C43_add', 'C43_remove', 'C43_addRange', 'C43_removeRange', 'C43_contains', 'C43_count', 'C43_out_of_range', 'C43_parse_grammar', 'C43_parse_single', 'C43_parse_range', 'C43_sortInts_perm', 'C43_groups_partition', 'C43_groups_nodup', 'C43_groups_keep_l2', 'C43_groups_size', 'C43_groups_single_l3', 'C43_groups_structure']]
 
 
 def run(ctx, replay):
